@@ -149,6 +149,17 @@ VEC_DECL(Val, vec_V);
 /* ---- std::vector, additions to prelude/absfile.h: default construction, push_back, reserve, begin/end (A-std) */
 static vec_I vec_I_new(void) { vec_I v; v.p = (Idx *)malloc(sizeof(Idx) * VCAP); v.len = 0; return v; }
 static vec_V vec_V_new(void) { vec_V v; v.p = (Val *)malloc(sizeof(Val) * VCAP); v.len = 0; return v; }
+/* resize: same semantics as prelude/absfile.h VEC_RESIZE, but the new elements are value-initialised by TYPED stores
+ * (the byte-wise fill of absfile.h on 4-byte elements made the formula 5x larger: measured 35 s vs 7 s at n,nnz <= 2) */
+#undef VEC_RESIZE
+#define VEC_RESIZE(v, nn)                                                          \
+  do {                                                                             \
+    size_t n_ = (size_t)(nn);                                                      \
+    if (n_ > VEC_MAX_SIZE(v)) { g_thrown = 2; return CXC_THROW_RET; }              \
+    if (n_ > VCAP && nondet_bool()) { g_thrown = 3; return CXC_THROW_RET; }        \
+    for (size_t k_ = 0; k_ < VCAP; ++k_) if (k_ >= (v).len && k_ < n_) (v).p[k_] = 0; \
+    (v).len = n_;                                                                  \
+  } while (0)
 /* push_back: beyond the modelled capacity the element is not stored (bound artefact flag) */
 #define VEC_PUSH(v, x) do { if ((v).len < VCAP) (v).p[(v).len] = (x); else g_cap_exceeded = 1; (v).len++; } while (0)
 /* reserve(n): n is converted to size_type; n > max_size() -> std::length_error; otherwise no observable effect */
